@@ -537,7 +537,7 @@ def _perm(n, ints):
 # programmatic construction
 
 
-def build(m, resolvers=None, type_resolver=None, use_out_names=False):
+def build(m, resolvers=None, type_resolver=None, use_out_names=False, is_type_of=None):
     """GraphQLSchema assembled from type objects (thunks for fields)."""
     from graphql import (GraphQLArgument, GraphQLBoolean, GraphQLDirective, GraphQLEnumType,
                          GraphQLEnumValue, GraphQLField, GraphQLFloat, GraphQLID, GraphQLInputField,
@@ -599,7 +599,7 @@ def build(m, resolvers=None, type_resolver=None, use_out_names=False):
     for o in m["objects"]:
         types[o["name"]] = GraphQLObjectType(
             o["name"], mk_fields(o), interfaces=(lambda o=o: [types[n] for n in o["interfaces"]]),
-            description=o["desc"])
+            description=o["desc"], is_type_of=is_type_of(o["name"]) if is_type_of else None)
     for u in m["unions"]:
         types[u["name"]] = GraphQLUnionType(u["name"], (lambda u=u: [types[n] for n in u["types"]]),
                                             description=u["desc"], resolve_type=type_resolver)
